@@ -1,6 +1,6 @@
 """C16 -- affine charts, affine maps, subspace operations (C1, R1c, I1c, U1)."""
 from ..rules import chart_rules as R
-from ..rules.common import u1
+from ..rules.common import u1, n1
 
 P = R.PROJ
 ENTRIES = [
@@ -16,6 +16,7 @@ ENTRIES = [
 def run(ctx):
     R.rule_c1(ctx)
     R.rule_chart_slot(ctx)
+    n1(ctx, ["geometry_tools/projective.py"])
     u1(ctx, ENTRIES, min_functions=15)
     ctx.r.assume("affine maps, translations, intersections and eigenvectors "
                  "are numerical clauses and not decided")
